@@ -144,11 +144,25 @@ def replay(spec):
 
 
 def run(ctx):
-    ctx.rule = ('random histories of <=9 steps mixing warm-up lookups (all entry points) with register/unregister/subscribe/'
+    ctx.rule = ('mutations completing while a lookup is in flight (call-out points x mutation kinds x entry points, next lookup compared with a cold registry); random histories of <=9 steps mixing warm-up lookups (all entry points) with register/unregister/subscribe/'
                 'unsubscribe on any chain member, re-basing of a required interface, re-basing of the leaf registry, class and '
                 'instance declaration changes, rebuild; after every mutation every entry point on every registry (arity 0..2, '
                 'class and instance specifications) is compared with cold registries rebuilt from the listings; distinct = histories')
     ctx.bounds = 'history<=9, registries<=3, interfaces<=5'
+    # mutations that complete WHILE a lookup is in flight (the statement quantifies over any history): the answer that
+    # was being computed must not be what later lookups see -- the re-entrancy product of the C11 check, stale-cache oracle
+    import itertools
+    from falsify import C11
+    for flavour, point, mutation, entry, name in itertools.product('AV', C11.POINT, C11.MUTATION, C11.ENTRY, ('', 'n')):
+        if ctx.too_many():
+            return
+        if not C11.applicable(point, entry) or mutation == 'raise':
+            continue
+        args = (flavour, point, mutation, entry, name)
+        ctx.case(('in-flight',) + args)
+        for sig, what in C11.one(*args):
+            if sig.startswith('stale-cache'):
+                ctx.violation('in-flight-' + sig + ':' + point + ':' + entry, what, 'from falsify.C11 import replay\nreplay("one", *%r)\n' % (args,))
     trials = 1200 if ctx.tier == 'quick' else 8000
     for t in range(trials):
         if ctx.out_of_time() or ctx.too_many():
